@@ -680,10 +680,46 @@ path "cubbyhole/*" { capabilities = ["read", "update", "create"] }`}); cl != "ok
 	}
 }
 
+// c19RootLast: a use-limited token WITHOUT an expiry (root policy, no TTL: its lease never expires): "after its last use
+// the token is revoked together with the leases issued under it" all the same. Uses 1..n-1 read a leased secret, the
+// last one reads the cubbyhole. Op line: rootlast <n> => <class of the last use>|token:<state>|leases:<revoked>/<issued>
+func c19RootLast(t *testing.T, out *vh.Out) {
+	for n := 1; n <= 3; n++ {
+		_, c, root, rec := c19Setup(t)
+		tok := vhCreateToken(t, c, root, map[string]any{"policies": []string{"root"}, "num_uses": n})
+		salted := c19Salted(t, c, tok)
+		out.Reset()
+		for i := 0; i < n-1; i++ {
+			if cl := c19Issue(c, "lease", tok, i); !strings.HasPrefix(cl, "ok") {
+				t.Fatalf("c19 rootlast set-up use %d: %s", i, cl)
+			}
+		}
+		cl := c19Issue(c, "read", tok, 0)
+		state := ""
+		nrev := 0
+		for i := 0; i < 400; i++ {
+			_, _, revoked := rec.Snapshot()
+			nrev = len(revoked)
+			if state = c19TokenState(c, salted); state == "gone" && nrev >= n-1 {
+				break
+			}
+			time.Sleep(5 * time.Millisecond)
+		}
+		_, issued, _ := rec.Snapshot()
+		viol := ""
+		if state != "gone" || nrev < len(issued) {
+			viol = fmt.Sprintf("!VIOL:a use-limited token without an expiry (root policy, no TTL) is not revoked after its last use: token %s, %d of %d leases issued under it revoked#spent-nonexpiring-token-not-revoked", state, nrev, len(issued))
+		}
+		out.Op(fmt.Sprintf("%s|token:%s|leases:%d/%d%s", cl, state, nrev, len(issued), viol), "rootlast", vh.I(int64(n)))
+		_ = c.Shutdown()
+	}
+}
+
 func TestVerifC19(t *testing.T) {
 	out := vh.Open()
 	defer out.Close()
 	rng := vh.NewRand(vh.Seed())
+	c19RootLast(t, out)
 	c19SealDenied(t, out)
 	c19SealDeniedNs(t, out)
 	c19OrphanRace(t, out)
